@@ -167,6 +167,34 @@ HEADERS = [
         let v: Vec<_> = Lexer::new("aaa b c cc d e f").map(|r| r.map(|t| t.1).map_err(|e| format!("{:?}", e.kind))).collect();
         assert_eq!(v, vec![Ok(3), Ok(2), Ok(3), Err("Custom(\\"cc\\")".to_string()), Ok(42), Ok(5), Ok(7)]);
     }
+"""),
+ ("restricted visibilities: pub(in path), pub(super), pub(self)", """
+    pub mod outer {
+        pub mod inner {
+            use lexgen::lexer;
+            lexer! {
+                /// visible in `outer` only
+                pub(in super::super::outer) LexIn -> u32;
+                'a' = 1,
+                ' ',
+            }
+            lexer! {
+                pub(in crate) LexInCrate -> u32;
+                'b' = 2,
+            }
+            lexer! {
+                pub(super) LexSuper -> u32;
+                'c' = 3,
+            }
+            lexer! {
+                pub(self) LexSelf -> u32;
+                'd' = 4,
+            }
+            pub fn own() -> usize { LexSelf::new("dd").count() }
+        }
+        pub fn lex() -> usize { inner::LexIn::new("a a").count() + inner::LexSuper::new("c").count() + inner::own() }
+    }
+    pub fn go() { assert_eq!(outer::lex(), 5); assert_eq!(outer::inner::LexInCrate::new("bb").count(), 2); }
 """)]
 
 
